@@ -31,7 +31,14 @@ PENDING = [
 ]
 
 
-def failing_program(depth, blk, pend, trailing, resumed):
+TOPNEST = [
+    "{call}",
+    "if True {{\n  let tl1 = 5\n  {call}\n}}",
+    "for tf1 in [1, 2] {{\n  let tl1 = tf1\n  if True {{\n    let tl2 = 6\n    {call}\n  }}\n}}",
+]
+
+
+def failing_program(depth, blk, pend, trailing, resumed, topnest=0):
     """(definitions, top-level lets, failing call + trailing statements, local names)"""
     body = PENDING[pend][0]
     inner = BLOCKS[blk][0].format(body=body)
@@ -43,8 +50,18 @@ def failing_program(depth, blk, pend, trailing, resumed):
         defs += f"fun g{d}(p{d}: Int) {{\n  let l{d} = p{d}\n  if True {{\n    let n{d} = [1, {callee}(l{d})]\n  }}\n  l{d}\n}}\n"
         callee = f"g{d}"
     lets = "let keep1 = 41\nlet keep2 = [keep1, 2]\n"
-    fail = f"let after0 = {callee}(3)\n" + "".join(f"let after{i} = {i}\n" for i in range(1, trailing + 1))
-    locals_ = ["l1", "p1", "b1", "m1", "it1", "w1", "b3", "it2", "pv1", "pv2", "after0", "after1", "after2", "l2", "n2", "l3", "n3"]
+    if depth == 0:
+        # the failure is in the top-level frame itself
+        # (no top-level `let w1` + while here: it would be a completed top-level
+        # variable mutated by the aborted evaluation)
+        tmpl = BLOCKS[blk][0].replace("let w1 = 0\nwhile w1 < 2 {{\n  w1 += 1\n", "for w1 in [1, 2] {{\n")
+        call = tmpl.format(body=PENDING[pend][0])
+        defs = ""
+    else:
+        call = f"let after0 = {callee}(3)"
+    fail = TOPNEST[topnest].format(call=call.replace("\n", "\n    ")) + "\n" + "".join(f"let after{i} = {i}\n" for i in range(1, trailing + 1))
+    locals_ = ["l1", "p1", "b1", "m1", "it1", "w1", "b3", "it2", "pv1", "pv2", "after0", "after1", "after2", "l2", "n2", "l3", "n3",
+               "tl1", "tl2", "tf1"]
     return defs, lets, fail, locals_
 
 
@@ -79,12 +96,15 @@ def run(tier, seed):
     finally:
         shutil.rmtree(d, ignore_errors=True)
     cases = []
-    for depth, blk, pend, trailing, resumed in itertools.product((1, 2, 3), range(4), range(3), (0, 1, 2), (0, 2)):
-        cases.append((depth, blk, pend, trailing, resumed))
+    for depth, blk, pend, trailing, resumed in itertools.product((0, 1, 2, 3), range(4), range(3), (0, 1, 2), (0, 2)):
+        for topnest in (0, 1, 2):
+            if tier == "quick" and topnest and (trailing == 1 or pend == 1):
+                continue
+            cases.append((depth, blk, pend, trailing, resumed, topnest))
 
     def one(case):
-        depth, blk, pend, trailing, resumed = case
-        defs, lets, fail, locals_ = failing_program(depth, blk, pend, trailing, resumed)
+        depth, blk, pend, trailing, resumed, topnest = case
+        defs, lets, fail, locals_ = failing_program(depth, blk, pend, trailing, resumed, topnest)
         pr = probes(locals_)
         a_reqs = [run_req(defs + lets + fail)] + [run_req(":resume")] * resumed + [run_req(":abort")] + pr
         b_reqs = [run_req(defs + lets)] + pr
@@ -94,8 +114,8 @@ def run(tier, seed):
 
     results = pmap(one, cases)
     for case, a_reqs, (rca, aa, erra), (rcb, ab, errb), npr in results:
-        depth, blk, pend, trailing, resumed = case
-        key = f"C10 depth={depth} blocks={BLOCKS[blk][1]} pending_values={PENDING[pend][1]} trailing={trailing} resumed={resumed}"
+        depth, blk, pend, trailing, resumed, topnest = case
+        key = f"C10 depth={depth} blocks={BLOCKS[blk][1]} pending_values={PENDING[pend][1]} trailing={trailing} resumed={resumed} topnest={topnest}"
         ck.evaluated()
         if rcb != 0 or len(ab) != 1 + npr:
             raise ToolError(f"reference session B failed for {key}: rc={rcb} {errb[-200:]}")
@@ -123,7 +143,7 @@ def run(tier, seed):
             ck.fail(key, f"{key}: {problem}", {"cmd": "garden reftest-json-session s.json", "requests": a_reqs, "stderr": erra[-300:]})
     ck.assumptions += [":fvalues is not in the probe battery: values of earlier completed top-level statements legitimately remain on the value stack of a session that never aborted",
                        "the failing call is a named function (it cannot touch top-level variables), so 'the same top-level variables' is well defined"]
-    return ck.finish(rule="failure placed at frames 1..3 x open blocks 0..3 x pending values 0..2 x trailing top-level statements 0..2 x resumed 0/2 times before :abort; every case distinct and non-trivial; "
+    return ck.finish(rule="failure placed at frames 0..3 x top-level nesting 0..2 x open blocks 0..3 x pending values 0..2 x trailing top-level statements 0..2 x resumed 0/2 times before :abort; every case distinct and non-trivial; "
                           "probes: top-level names, every local of the aborted frames, fresh expressions, :resume :stack :fstmts :locals", exhaustive=True)
 
 
